@@ -817,10 +817,18 @@ func init() {
 			return mkInt(types.Int32, int64(f(rune(int64(r.C)))))
 		})
 	}
-	reg("go/token.IsExported", func(in *Interp, fr *frame, a []Value) Value { return mkBool(token.IsExported(strArg(a[0]).mustConcrete())) })
-	reg("go/ast.IsExported", func(in *Interp, fr *frame, a []Value) Value { return mkBool(token.IsExported(strArg(a[0]).mustConcrete())) })
-	reg("go/token.IsIdentifier", func(in *Interp, fr *frame, a []Value) Value { return mkBool(token.IsIdentifier(strArg(a[0]).mustConcrete())) })
-	reg("go/token.IsKeyword", func(in *Interp, fr *frame, a []Value) Value { return mkBool(token.IsKeyword(strArg(a[0]).mustConcrete())) })
+	reg("go/token.IsExported", func(in *Interp, fr *frame, a []Value) Value {
+		return mkBool(token.IsExported(strArg(a[0]).mustConcrete()))
+	})
+	reg("go/ast.IsExported", func(in *Interp, fr *frame, a []Value) Value {
+		return mkBool(token.IsExported(strArg(a[0]).mustConcrete()))
+	})
+	reg("go/token.IsIdentifier", func(in *Interp, fr *frame, a []Value) Value {
+		return mkBool(token.IsIdentifier(strArg(a[0]).mustConcrete()))
+	})
+	reg("go/token.IsKeyword", func(in *Interp, fr *frame, a []Value) Value {
+		return mkBool(token.IsKeyword(strArg(a[0]).mustConcrete()))
+	})
 	// ---- math (the bit-cast helpers go through unsafe pointers in the source) ----
 	reg("math.Abs", func(in *Interp, fr *frame, a []Value) Value {
 		f := a[0].(Float)
@@ -922,6 +930,18 @@ func init() {
 	reg("(*sync.RWMutex).TryLock", func(in *Interp, fr *frame, a []Value) Value { return in.tryLockOp(a[0], "TryLock") })
 	reg("(*sync.RWMutex).TryRLock", func(in *Interp, fr *frame, a []Value) Value { return in.tryLockOp(a[0], "TryRLock") })
 	reg("(*sync.Mutex).TryLock", func(in *Interp, fr *frame, a []Value) Value { return in.tryLockOp(a[0], "TryLock") })
+	reg("(*sync.WaitGroup).Add", func(in *Interp, fr *frame, a []Value) Value {
+		in.threadMode().wgAdd(in, a[0].(*Value), asInt(a[1]))
+		return nil
+	})
+	reg("(*sync.WaitGroup).Done", func(in *Interp, fr *frame, a []Value) Value {
+		in.threadMode().wgAdd(in, a[0].(*Value), -1)
+		return nil
+	})
+	reg("(*sync.WaitGroup).Wait", func(in *Interp, fr *frame, a []Value) Value {
+		in.threadMode().wgWait(in, a[0].(*Value))
+		return nil
+	})
 	reg("(*sync.Once).Do", func(in *Interp, fr *frame, a []Value) Value {
 		p := a[0].(*Value)
 		if !in.onces[p] {
